@@ -91,6 +91,27 @@ func (aux *Aux) AddMethod(key string, method *slip.Method) {
 	aux.moo.Unlock()
 }
 
+// ClearCaches drops the dispatch cache of every generic function. The
+// cache keys are class names so an entry is stale once the class or one of
+// its superclasses has been redefined.
+func ClearCaches() {
+	var all []*Aux
+	for _, p := range slip.AllPackages() {
+		p.EachFuncInfo(func(fi *slip.FuncInfo) {
+			if aux, ok := fi.Aux.(*Aux); ok {
+				all = append(all, aux)
+			}
+		})
+	}
+	for _, aux := range all {
+		aux.moo.Lock()
+		if 0 < len(aux.cache) {
+			aux.cache = map[string]*slip.Method{}
+		}
+		aux.moo.Unlock()
+	}
+}
+
 func (aux *Aux) updateDefaultCaller() {
 	aux.defaultCaller = nil
 	if len(aux.methods) == 1 {
